@@ -198,7 +198,15 @@ def crash_job(args):
           "call": pt["call"], "path_class": pt["path_class"], "window": pt["window"]}
     try:
         edits = _reach(proj, world, prestate)
-        if pt["call"] == "script-kill":
+        if pt["call"] == "script-kill" and scope == "sproc":
+            # only the redo process that runs this script dies; the orphaned script carries on (after the rest of the
+            # invocation has finished) and the harness waits until nothing of the session is left
+            env = dict(proj.env, RV_KILL="%s:%s:p" % (pt["lid"].split(":", 1)[1], pt["k"]))
+            r = e3.run_session(BUILD, proj.p, env, root, "crash", timeout=60, survivors_timeout=15)
+            if r["rc"] == 0:
+                raise MachineryError(f"parent-only script kill {pt['lid']}:{pt['k']} did not fire in world {world_name}/{prestate} "
+                                     f"(rc={r['rc']}; stderr {r['err'][-300:]!r})")
+        elif pt["call"] == "script-kill":
             env = dict(proj.env, RV_KILL="%s:%s" % (pt["lid"].split(":", 1)[1], pt["k"]))
             r = e3.run_session(BUILD, proj.p, env, root, "crash", timeout=60, survivors_timeout=15)
             if r["rc"] != -9:
@@ -279,7 +287,8 @@ def crash_job(args):
 
 
 PRESTATES = {"chain": ("first", "incr", "rmtarget", "override-rm"), "csum-mid": ("first", "incr", "incr2", "rmtarget", "override-rm"),
-             "default": ("first", "incr"), "takeover": ("first", "do-removed"), "chain-append": ("first", "incr"), "dynamic": ("first", "incr")}
+             "default": ("first", "incr"), "takeover": ("first", "do-removed"), "chain-append": ("first", "incr"), "dynamic": ("first", "incr"),
+             "csum-append": ("first", "incr", "incr2")}
 
 
 def plan(tier):
@@ -288,8 +297,10 @@ def plan(tier):
         c = [(w, ps, sc) for w in ("chain", "csum-mid", "chain-append") for ps in PRESTATES[w] for sc in ("tree", "script")]
         c += [("takeover", "do-removed", sc) for sc in ("tree", "script")]
         c += [("chain", ps, "proc") for ps in ("first", "incr")]
+        c += [("csum-append", ps, sc) for ps in PRESTATES["csum-append"] for sc in ("tree", "script", "sproc")]
+        c += [(w, ps, "sproc") for w in ("csum-mid", "chain-append") for ps in PRESTATES[w]]
         return c, True
-    return [(w, ps, sc) for w in PRESTATES for ps in PRESTATES[w] for sc in ("proc", "tree", "script")], False
+    return [(w, ps, sc) for w in PRESTATES for ps in PRESTATES[w] for sc in ("proc", "tree", "script", "sproc")], False
 
 
 def signature(tr):
@@ -320,14 +331,14 @@ def main(tier):
                     continue
                 counts[(w, ps)] = cr
             combos = [c for c in combos if (c[0], c[1]) not in broken]
-            skeys = sorted({(w, ps) for w, ps, sc in combos if sc == "script"})
+            skeys = sorted({(w, ps) for w, ps, sc in combos if sc in ("script", "sproc")})
             spts = {}
             spts = dict(zip(skeys, pool.map(script_points, [k[0] for k in skeys], [k[1] for k in skeys])))
             for w, ps, sc in combos:
                 pts, per_proc, seqs = counts[(w, ps)]
-                if sc == "script":
+                if sc in ("script", "sproc"):
                     for pt in spts[(w, ps)]:
-                        jobs.append((w, ps, "tree", pt, None))
+                        jobs.append((w, ps, "tree" if sc == "script" else "sproc", pt, None))
                     continue
                 for pt in pts:
                     if quick and sc == "proc" and pt["lid"] != TOP_LID:
@@ -394,7 +405,9 @@ def main(tier):
         "a kill is SIGKILL of the process (scope proc) or of the invocation's process group (scope tree); no power-loss "
         "model: the page cache survives, so synchronous=off is not exercised",
         "besides the libc-call boundaries, the whole tree is also killed at script boundaries (script start, after each "
-        "dependency request, after the output was written): instants at which redo itself only waits",
+        "dependency request, after the output was written): instants at which redo itself only waits; scope sproc kills, at "
+        "the same instants, only the redo process that runs the script -- the orphaned script carries on (after the rest "
+        "of the invocation has ended) up to its own end, redo-stamp included",
         "worlds x pre-states: " + "; ".join("%s: %s" % (w, ",".join(sorted({ps for w2, ps, _ in combos if w2 == w}))) for w in sorted({w for w, _, _ in combos})),
     ])
     print(f"[{PID}] tier={tier} crash_points={len(results)} classes={len(classes)} failing={nfail} "
@@ -412,7 +425,7 @@ def replay(path):
     try:
         if doc.get("call") == "script-kill":
             pt = next(p for p in script_points(doc["world"], doc["prestate"]) if p["lid"] == doc["lid"] and p["k"] == doc["k"])
-            tr = crash_job((doc["world"], doc["prestate"], "tree", pt, None))
+            tr = crash_job((doc["world"], doc["prestate"], "sproc" if doc.get("scope") == "sproc" else "tree", pt, None))
         else:
             pts, per, seqs = count_run(doc["world"], doc["prestate"])
             pt = next(p for p in pts if p["lid"] == doc["lid"] and p["k"] == doc["k"])
